@@ -316,6 +316,30 @@ func TwinNames(r *Rand) []string {
 	}
 }
 
+// CollidingPairs returns pairs of DIFFERENT names with the same 32-bit FNV-1a
+// value (hence in the same bucket), found by a birthday search over names
+// "<prefix><n>"; the prefix comes from r, so the pairs differ between seeds.
+func CollidingPairs(r *Rand, want int) [][2]string {
+	prefix := NameOfLen(r, 3+r.Intn(8))
+	if r.Bool() {
+		prefix = "demo/ctr-" // plain ASCII, as counter names usually are
+	}
+	seen := make(map[uint32]int, 1<<19)
+	var out [][2]string
+	for i := 0; len(out) < want && i < 3000000; i++ {
+		h := fnv.New32a()
+		n := prefix + strconv.Itoa(i)
+		h.Write([]byte(n))
+		v := h.Sum32()
+		if j, ok := seen[v]; ok {
+			out = append(out, [2]string{prefix + strconv.Itoa(j), n})
+		} else {
+			seen[v] = i
+		}
+	}
+	return out
+}
+
 // NameInBucket returns a short name that the format hashes to bucket b.
 func NameInBucket(r *Rand, b uint32) string {
 	base := NameOfLen(r, 1+r.Intn(6))
@@ -341,8 +365,27 @@ func Names(r *Rand, k int) []string {
 	return out
 }
 
+func metaLines(r *Rand) string {
+	var sb strings.Builder
+	for i, k := 0, 1+r.Intn(5); i < k; i++ {
+		fmt.Fprintf(&sb, "K%d: %s\n", i, strings.Repeat("w", r.Intn(30)))
+	}
+	return sb.String() + "Last: "
+}
+
 // Meta returns well-formed metadata ("key: value" lines) of at most MaxMeta bytes.
 func Meta(r *Rand) string {
+	if r.Chance(15) {
+		// a length that fills the header exactly: no NUL between the metadata
+		// and the allocation limit that follows the header
+		m := metaLines(r)
+		for (len(m)+1)%32 != 0 {
+			m += "v"
+		}
+		if len(m)+1 <= MaxMeta {
+			return m + "\n"
+		}
+	}
 	switch r.Intn(8) {
 	case 0:
 		return ""
